@@ -77,12 +77,15 @@ func TestVerifC01Rig(t *testing.T) {
 		Enc     string
 		Streams int
 		Browser string
+		// Timeout > 0: StreamTimeout in seconds; the application connections then stay in use (ping-pong) for longer
+		// than that, which an active connection must survive
+		Timeout int
 	}
-	scens := []scen{{2, "plain", 6, "firefox"}, {4, "aes-256-gcm", 12, "chrome"}, {1, "chacha20-poly1305", 4, "safari"}, {0, "aes-128-gcm", 3, "firefox"}, {8, "aes-gcm", 20, "chrome"}}
+	scens := []scen{{2, "plain", 6, "firefox", 0}, {4, "aes-256-gcm", 12, "chrome", 0}, {1, "chacha20-poly1305", 4, "safari", 0}, {0, "aes-128-gcm", 3, "firefox", 0}, {8, "aes-gcm", 20, "chrome", 0}, {2, "plain", 2, "firefox", 1}}
 	if kit.Thorough() {
 		more := []scen{}
 		for i := 0; i < 25; i++ {
-			more = append(more, scen{[]int{0, 1, 2, 4, 8}[rng.Intn(5)], []string{"plain", "aes-256-gcm", "aes-128-gcm", "chacha20-poly1305"}[rng.Intn(4)], 1 + rng.Intn(60), []string{"chrome", "firefox", "safari"}[rng.Intn(3)]})
+			more = append(more, scen{[]int{0, 1, 2, 4, 8}[rng.Intn(5)], []string{"plain", "aes-256-gcm", "aes-128-gcm", "chacha20-poly1305"}[rng.Intn(4)], 1 + rng.Intn(60), []string{"chrome", "firefox", "safari"}[rng.Intn(3)], 0})
 		}
 		scens = append(scens, more...)
 	}
@@ -165,7 +168,7 @@ func TestVerifC01Rig(t *testing.T) {
 		}()
 		raw := client.RawConfig{ServerName: "www.example.com", ProxyMethod: "echo", EncryptionMethod: sc.Enc, UID: uid,
 			PublicKey: ecdh.Marshal(pub), NumConn: sc.NumConn, LocalHost: "127.0.0.1", LocalPort: "1984",
-			RemoteHost: "127.0.0.1", RemotePort: "443", BrowserSig: sc.Browser, Transport: "direct"}
+			RemoteHost: "127.0.0.1", RemotePort: "443", BrowserSig: sc.Browser, Transport: "direct", StreamTimeout: sc.Timeout}
 		local, remote, auth, err := raw.ProcessRawConfig(common.WorldState{Rand: rand.Reader, Now: time.Now})
 		if err != nil {
 			t.Fatal(err)
@@ -190,6 +193,12 @@ func TestVerifC01Rig(t *testing.T) {
 					return
 				}
 				total := int64([]int{1, 300, 20000, 70000, 200000}[lr.Intn(5)])
+				pace := time.Duration(0)
+				if sc.Timeout > 0 {
+					// keep the connection in use for 2.5 x StreamTimeout: 25 small messages, one every tenth of the timeout
+					total = 25 * 40
+					pace = time.Duration(sc.Timeout) * time.Second / 10
+				}
 				var sent atomic.Int64
 				rdone := make(chan struct{})
 				go func() { // reader
@@ -225,6 +234,10 @@ func TestVerifC01Rig(t *testing.T) {
 				var off int64
 				for off < total {
 					n := int64([]int{1, 7, 1400, 16000, 16384, 50000}[lr.Intn(6)])
+					if pace > 0 {
+						n = 40
+						time.Sleep(pace)
+					}
 					if off+n > total {
 						n = total - off
 					}
